@@ -322,8 +322,24 @@ class Program:
         self.facts = facts
         self.meta = facts["meta"]
         self.fns = {}
-        for j in facts["fns"]:
+        from .mirinline import inline_helpers
+
+        fns_json, self.inlined_helpers = inline_helpers(facts["fns"])
+        self.helpers = {}
+        from .mirinline import is_private_helper
+
+        called = set()
+        for j in fns_json:
+            for b in j["blocks"]:
+                t = b["term"]
+                if t["k"] in ("call", "tailcall") and (t.get("callee") or {}).get("key"):
+                    called.add(t["callee"]["key"])
+        for j in fns_json:
             f = Fn(self, j)
+            if is_private_helper(j) and self.inlined_helpers and f.key not in called:
+                # every call of this private helper was spliced into its callers: it is analysed there, in context
+                self.helpers[f.key] = f
+                continue
             self.fns[f.key] = f
         self.adts = {a["name"]: a for a in facts["adts"] if not a.get("from_expansion") or True}
         self.adts_by_path = {a["path"]: a for a in facts["adts"]}
